@@ -607,7 +607,7 @@ impl RustCodeGenerator {
                     } else {
                         Cow::Owned(format!("{}_{}", field.to_uppercase(), name))
                     },
-                    r#type,
+                    r#type.as_no_option(),
                     value,
                     1,
                 ));
